@@ -73,6 +73,44 @@ theorem untouched_columns_unchanged {m m' : Manifest} {t : Txn} (F : List Nat) (
     ∃ g, m.frags f = some g ∧ cols F g = cols F g' :=
   build_frame F f h hf hnt g' hg'
 
+/-! ### the repair candidate for region (a) is sufficient -/
+
+/-- check_create_index_txn with the repair candidate: an Update whose fields_modified meets the new index's fields in a
+    fragment of its bitmap is a (retryable) conflict, like the DataReplacement arm next to it -/
+def conflictsRepaired (mine other : Txn) : Bool :=
+  conflicts mine other ||
+    match mine with
+    | .createIndex new _ => rebaseUnsafe new other
+    | _ => false
+
+def commitRepaired (hist : List Ver) (lag : Nat) (t : Txn) : Except Err (List Ver) :=
+  if (hist.take lag).any (fun v => conflictsRepaired t v.t) then .error .retryable else commit hist lag t
+
+/-- with that repair no hypothesis about index commits is left: every index commit the repaired check lets through keeps
+    all versions faithful (region (b) still has to be excluded for DataReplacement commits) -/
+theorem repaired_check_preserves_coverage (hist hist' : List Ver) (lag : Nat) (t : Txn) (hI : Inv hist)
+    (hlag : lag < hist.length) (hBuilt : Built (hist[lag]).m t)
+    (hS : ∀ f p, t = .dataRepl f p → safeTxn hist lag t = true)
+    (h : commitRepaired hist lag t = .ok hist') : ∀ v ∈ hist', Faithful v.m := by
+  unfold commitRepaired at h
+  split at h
+  · cases h
+  · rename_i hc
+    refine commit_preserves_coverage hist hist' lag t hI hlag hBuilt ?_ h
+    cases t with
+    | createIndex new removed =>
+      simp only [safeTxn, Bool.not_eq_true', List.any_eq_false]
+      intro v hv
+      simp only [List.any_eq_true, not_exists, not_and, Bool.not_eq_true] at hc
+      have := hc v hv
+      simp only [conflictsRepaired, Bool.or_eq_false_iff] at this
+      simpa using this.2
+    | dataRepl f p => exact hS f p rfl
+    | append _ => rfl
+    | delete _ _ => rfl
+    | update _ _ _ _ _ _ _ => rfl
+    | reserve _ => rfl
+
 /-! ### counterexamples (one per defect region), on the observation `faithfulB` -/
 
 def allFaithfulB (s : Store) : Bool := s.hist.all fun v => faithfulB v.m
@@ -135,6 +173,12 @@ def wSafe : List (Nat × Req) :=
 example : safeRun (initStore wTable) wSafe = true := by decide
 example : (runReqs (initStore wTable) wSafe).hist.length = 8 := by decide
 example : allFaithfulB (runReqs (initStore wTable) wSafe) = true := by decide
+
+/-- the repaired check refuses the witness of region (a): A's create_index(x), built at v1, after the merge_insert -/
+example : (match commitRepaired (runReqs (initStore wTable) [(0, .mix [[some 1, some 100]])]).hist 1
+      (bIndex ⟨addNews (fun _ => none) 0 wTable, 2, []⟩ 1 1 1) with
+    | .error .retryable => true
+    | _ => false) = true := by decide
 
 /-- the conflict matrix refuses what it must: create_index(x) built before a DataReplacement of x is refused -/
 example : (runReqs (initStore wTable)
